@@ -281,6 +281,7 @@ type LayerTrace struct {
 	Faulty     bool       `json:"faulty"` // some dup / drop / replay was applied
 	Quiet      bool       `json:"quiet"`  // both queues empty at the end
 	Panics     int        `json:"panics"`
+	Calls      int        `json:"calls"`  // calls of Do that have returned (a retry after an abandoned transfer is a second call)
 	RcvSrv     int        `json:"rcvSrv"` // reassembly / send cache sizes at the end (before expiry)
 	SndSrv     int        `json:"sndSrv"`
 	RcvCli     int        `json:"rcvCli"`
@@ -376,11 +377,16 @@ func RunLayer(p Params, acts []Act, concurrent bool) LayerTrace {
 	}
 	started := false
 	done := make(chan struct{})
+	callCtx, callCancel := context.WithCancel(ctx)
+	defer func() { callCancel() }()
 	start := func() {
 		started = true
+		done = make(chan struct{})
+		callCtx, callCancel = context.WithCancel(ctx)
+		cctx, cdone := callCtx, done
 		go func() {
-			defer close(done)
-			req := ccC.AcquireMessage(ctx)
+			defer close(cdone)
+			req := ccC.AcquireMessage(cctx)
 			code := codes.GET
 			if p.L > 0 {
 				code = codes.POST
@@ -398,12 +404,13 @@ func RunLayer(p Params, acts []Act, concurrent bool) LayerTrace {
 				select {
 				case w := <-respCh:
 					return w.toPool(plc, ctx), nil
-				case <-ctx.Done():
-					return nil, ctx.Err()
+				case <-cctx.Done():
+					return nil, cctx.Err()
 				}
 			})
 			mu.Lock()
 			defer mu.Unlock()
+			tr.Calls++
 			if err != nil {
 				tr.Ret = "err"
 				return
@@ -496,6 +503,7 @@ func RunLayer(p Params, acts []Act, concurrent bool) LayerTrace {
 		side.mu.Unlock()
 	}
 	recv := func(w wireMsg) { recvN(w, 1) }
+	abandoned := false
 	for i, a := range acts {
 		switch a.A {
 		case "start":
@@ -521,6 +529,49 @@ func RunLayer(p Params, acts []Act, concurrent bool) LayerTrace {
 		case "drop":
 			if _, ok := pop(a.D, false); ok {
 				tr.Applied[i], tr.Faulty = true, true
+			}
+		case "abandon": // the peer goes silent (everything in flight is lost) and the caller gives up
+			mu.Lock()
+			running := started && tr.Ret == "none"
+			mu.Unlock()
+			if running {
+				mu.Lock()
+				c2s, s2c = nil, nil
+				mu.Unlock()
+				callCancel()
+				select {
+				case <-done:
+					abandoned = true
+					tr.Applied[i], tr.Faulty = true, true
+				case <-time.After(3 * time.Second):
+					mu.Lock()
+					tr.Ret = "hung"
+					mu.Unlock()
+					stuck = true
+				}
+				for len(respCh) > 0 {
+					<-respCh
+				}
+			}
+		case "lapse": // the transfer timeout (3 s) elapses on both sides; only one side has run its sweep since
+			if abandoned {
+				if a.D == "c2s" { // the client's entries still sit in its caches, expired
+					cli.VerifAge(4 * time.Second)
+					srv.CheckExpirations(time.Now().Add(4 * time.Second))
+				} else { // the server's do
+					srv.VerifAge(4 * time.Second)
+					cli.CheckExpirations(time.Now().Add(4 * time.Second))
+				}
+				tr.Applied[i] = true
+			}
+		case "restart": // the same request again, same token
+			if abandoned {
+				abandoned = false
+				mu.Lock()
+				tr.Ret = "none"
+				mu.Unlock()
+				start()
+				tr.Applied[i] = true
 			}
 		case "lose": // the server's buffers time out (transfer timeout 3 s)
 			if rcv, snd := srv.VerifSizes(); rcv+snd > 0 {
